@@ -389,3 +389,196 @@ pub fn junk_script(rng: &mut Rng) -> ScriptBuf {
   let n = rng.usize(0, 60);
   ScriptBuf::from_bytes(rng.bytes(n))
 }
+
+// ------------------------------------------------------------ adversarial
+
+pub fn brotli_compress(data: &[u8]) -> Vec<u8> {
+  use std::io::Write;
+  let mut out = Vec::new();
+  {
+    let mut w = brotli::CompressorWriter::new(&mut out, 4096, 5, 22);
+    let _ = w.write_all(data);
+  }
+  out
+}
+
+/// CBOR byte strings chosen to stress decoders: deep nesting, indefinite
+/// lengths, huge declared lengths, truncation.
+pub fn nasty_cbor(rng: &mut Rng) -> Vec<u8> {
+  match rng.below(9) {
+    0 => vec![0x81; rng.usize(10, 20_000)],             // arrays nested n deep
+    1 => vec![0xa1; rng.usize(10, 20_000)],             // maps nested n deep
+    2 => vec![0x9f; rng.usize(10, 20_000)],             // indefinite arrays never closed
+    3 => vec![0x9b, 0xff, 0xff, 0xff, 0xff, 0xff, 0xff, 0xff, 0xff], // array of 2^64-1 items
+    4 => vec![0x5b, 0x7f, 0xff, 0xff, 0xff, 0xff, 0xff, 0xff, 0xff, 1, 2], // byte string of 2^63 bytes
+    5 => vec![0xc6; rng.usize(10, 20_000)],             // nested tags
+    6 => {
+      // a plausible gallery map, truncated
+      let mut v = vec![0xa1, 0x00, 0x98, 0xff];
+      v.extend(rng.bytes(40));
+      v
+    }
+    7 => vec![0xfb, 0x7f, 0xf8, 0, 0, 0, 0, 0, 0], // NaN
+    _ => {
+      let n = rng.usize(0, 300);
+      rng.bytes(n)
+    }
+  }
+}
+
+/// An adversarial (but consensus-valid) transaction: random witness stacks,
+/// hostile CBOR / brotli in metadata and properties, dozens of envelopes,
+/// megabyte scripts, deep OP_IF nesting, huge runestones.
+pub fn adversarial(g: &mut Gen, rng: &mut Rng, avail: &mut Vec<Avail>, _model: &Model, _height: u32) -> Option<Transaction> {
+  let n_in = *rng.pick(&[1usize, 1, 2, 3]);
+  let inputs = g.pick_inputs(rng, avail, n_in, false);
+  if inputs.is_empty() {
+    return None;
+  }
+  let total: u64 = inputs.iter().map(|a| a.value).sum();
+  let n_out = *rng.pick(&[1usize, 2, 3]);
+  let fee_mode = *rng.pick(&[0u64, 1, 3]);
+  let (values, _fee) = g.split_values(rng, total, n_out, fee_mode);
+  let mut output: Vec<TxOut> = values.iter().map(|v| TxOut { value: Amount::from_sat(*v), script_pubkey: g.script(rng) }).collect();
+  // odd output scripts and hostile runestones
+  match rng.below(8) {
+    0 => output.push(TxOut { value: Amount::ZERO, script_pubkey: junk_script(rng) }),
+    1 => {
+      // a runestone of ten thousand integers
+      let mut payload = Vec::new();
+      let n = rng.usize(1000, 10_000);
+      for i in 0..n {
+        crate::props::c25::leb(if i % 7 == 0 { u128::MAX } else { rng.log_u128() }, &mut payload);
+      }
+      let mut s = vec![0x6a, 0x5d];
+      for chunk in payload.chunks(500) {
+        push(&mut s, chunk);
+      }
+      output.push(TxOut { value: Amount::ZERO, script_pubkey: ScriptBuf::from_bytes(s) });
+    }
+    2 => {
+      // edicts with u128::MAX amounts to every output
+      let mut payload = Vec::new();
+      crate::props::c25::leb(0, &mut payload);
+      for _ in 0..rng.usize(1, 50) {
+        for v in [1u128, 0, u128::MAX, u128::from(rng.below(4))] {
+          crate::props::c25::leb(v, &mut payload);
+        }
+      }
+      let mut s = vec![0x6a, 0x5d];
+      push(&mut s, &payload);
+      output.insert(0, TxOut { value: Amount::ZERO, script_pubkey: ScriptBuf::from_bytes(s) });
+    }
+    3 => output.push(TxOut { value: Amount::ZERO, script_pubkey: ScriptBuf::from_bytes(vec![0x6a, 0x5d, 0x4e, 0xff, 0xff, 0xff, 0x7f]) }),
+    _ => {}
+  }
+  let mut tx = g.finish(inputs.clone(), output, Vec::new());
+  for i in 0..tx.input.len() {
+    let mut witness = Witness::new();
+    match rng.below(9) {
+      0 => {
+        // random stack
+        for _ in 0..rng.usize(0, 6) {
+          let n = if rng.chance(1, 20) { 100_000 } else { rng.usize(0, 200) };
+          witness.push(rng.bytes(n));
+        }
+      }
+      1 => {
+        // dozens of envelopes
+        let mut s = Vec::new();
+        for k in 0..rng.usize(30, 120) {
+          s.extend([0x00, 0x63]);
+          push(&mut s, b"ord");
+          push(&mut s, &[1]);
+          push(&mut s, b"text/plain");
+          s.push(0x00);
+          push(&mut s, format!("{k}").as_bytes());
+          s.push(0x68);
+        }
+        witness.push(&s);
+        witness.push([0xc0u8; 33]);
+      }
+      2 => {
+        // hostile CBOR in metadata and properties, brotli in property encoding
+        let mut s = vec![0x00, 0x63];
+        push(&mut s, b"ord");
+        let cbor = nasty_cbor(rng);
+        for chunk in cbor.chunks(520) {
+          push(&mut s, &[5]);
+          push(&mut s, chunk);
+        }
+        let props = match rng.below(4) {
+          0 => brotli_compress(&vec![0u8; rng.usize(10_000, 4_500_000)]), // bomb
+          1 => brotli_compress(&nasty_cbor(rng)),
+          2 => rng.bytes(50), // invalid brotli
+          _ => nasty_cbor(rng),
+        };
+        for chunk in props.chunks(520) {
+          push(&mut s, &[17]);
+          push(&mut s, chunk);
+        }
+        if rng.chance(3, 4) {
+          push(&mut s, &[19]);
+          push(&mut s, if rng.chance(4, 5) { b"br" } else { b"gzip" });
+        }
+        s.push(0x00);
+        push(&mut s, b"x");
+        s.push(0x68);
+        witness.push(&s);
+        witness.push([0xc0u8; 33]);
+      }
+      3 => {
+        // a two-megabyte script
+        let mut s = Vec::with_capacity(2_100_000);
+        if rng.chance(1, 2) {
+          s.extend([0x00, 0x63]);
+          push(&mut s, b"ord");
+          s.push(0x00);
+          let chunk = vec![0xabu8; 520];
+          for _ in 0..4000 {
+            push(&mut s, &chunk);
+          }
+          s.push(0x68);
+        } else {
+          s = rng.bytes(2_000_000);
+        }
+        witness.push(&s);
+        witness.push([0xc0u8; 33]);
+      }
+      4 => {
+        // deep OP_IF nesting and unterminated envelopes
+        let mut s = Vec::new();
+        for _ in 0..rng.usize(100, 5000) {
+          s.extend([0x00, 0x63]);
+        }
+        push(&mut s, b"ord");
+        witness.push(&s);
+        witness.push([0xc0u8; 33]);
+      }
+      5 => {
+        // annex-looking and control-block-looking junk in odd places
+        witness.push([0x50u8]);
+        witness.push([0x50u8, 0x50]);
+        witness.push([0x50u8]);
+      }
+      6 => {
+        // envelope whose fields are huge / numerous
+        let mut s = vec![0x00, 0x63];
+        push(&mut s, b"ord");
+        for _ in 0..rng.usize(100, 2000) {
+          push(&mut s, &[*rng.pick(&[1u8, 2, 3, 5, 7, 9, 11, 13, 17, 19, 4, 66])]);
+          let n = rng.usize(0, 40);
+          push(&mut s, &rng.bytes(n));
+        }
+        s.push(0x68);
+        witness.push(&s);
+        witness.push([0xc0u8; 33]);
+      }
+      _ => {
+        witness.push(rng.bytes(64));
+      }
+    }
+    tx.input[i].witness = witness;
+  }
+  Some(tx)
+}
